@@ -213,7 +213,7 @@ func c12Extra(rng *rand.Rand, kind string, j int) *SessSpec {
 		// (fail-stop) or keeps trying; it must neither carry on without the vBucket nor count it as ended for good
 		sp.ReqFail = map[int][2]int{vb: {2, []int{0x02, 0x24, 0x84}[j%3]}} // also KEY_EEXISTS ("the producer says it streams this vBucket")
 		sp.ReqFailFrom = true
-		sp.Steps = []Step{{Op: "barrier"}, {Op: "metrics"}, {Op: "end", VB: vb, St: transientStatus[rng.Intn(4)]}, {Op: "sleep", Ms: 7500}, {Op: "metrics"}, {Op: "waitstop", Ms: 150}}
+		sp.Steps = []Step{{Op: "barrier"}, {Op: "metrics"}, {Op: "end", VB: vb, St: transientStatus[rng.Intn(4)]}, {Op: "sleep", Ms: 9500}, {Op: "metrics"}, {Op: "waitstop", Ms: 150}}
 	case "retry-vs-rebalance":
 		// the first re-open attempt is refused; during the library's back-off a rebalance closes and reopens everything; the
 		// retry that wakes up afterwards belongs to the old open and must not request the vBucket a second time
@@ -386,7 +386,7 @@ func OracleEnds(tr *Trace) ([]Finding, int) {
 			}
 		}
 	}
-	// every re-open attempt refused: a client that is still running keeps trying (the script watched it for 7.5 s)
+	// every re-open attempt refused: a client that is still running keeps trying (the script watched it for 9.5 s; the library retries every second)
 	if sp.ReqFailFrom && closeCall != 0 {
 		for vb := range sp.ReqFail {
 			var lastReqW, closeW int64
@@ -399,7 +399,7 @@ func OracleEnds(tr *Trace) ([]Finding, int) {
 				}
 			}
 			n++
-			if lastReqW != 0 && closeW-lastReqW > int64(2500*time.Millisecond) {
+			if lastReqW != 0 && closeW-lastReqW > int64(4500*time.Millisecond) {
 				fs = append(fs, Finding{"C12", "reopen", "C12/reopen/abandoned", fmt.Sprintf("vb %d: every re-open attempt after the transient end was refused; the client neither stopped with an error nor kept trying (%d stream requests, the last one %.1f s before the harness closed the client) - it carries on without the vBucket", vb, len(tr.Segs[vb]), float64(closeW-lastReqW)/1e9)})
 			}
 		}
